@@ -10,6 +10,7 @@ fn main() {
         if let Some(v) = &kind { if v["kind"].as_str() == Some("lifecycle-history") { std::process::exit(mc::lifecycle::replay_file(v)); } if v["kind"].as_str() == Some(mc::drivers::ws::REPLAY_KIND) { std::process::exit(mc::drivers::ws::replay_file(v)); } }
         std::process::exit(mc::engine::run::replay_file(path));
     }
+    if args[1] == "c13-debug" { std::process::exit(mc::drivers::debug_plan(&args[2], args.get(3).map(|s| s.as_str()).unwrap_or(""))); }
     if args[1] == "debug-determinism" {
         let tier = if args.get(3).map(|s| s.as_str()) == Some("thorough") { Tier::Thorough } else { Tier::Quick };
         std::process::exit(mc::engine::run::debug_determinism(&args[2], tier, args.get(4).and_then(|s| s.parse().ok()).unwrap_or(0)));
